@@ -58,6 +58,11 @@ pub fn programs(tier: Tier) -> ProgramSet {
                     s.variants[i].serialize = vec!["z".into(), "abc".into()];
                     true
                 }));
+                // the longest literal is listed FIRST (the name is the longest, not the last one)
+                devs.push(dev(format!("v{}.serialize=[\"blue\",\"b\"]", i), &[&format!("ser{}", i)], move |s| {
+                    s.variants[i].serialize = vec!["blue".into(), "b".into()];
+                    true
+                }));
                 devs.push(dev(format!("v{}.to_string=\"Tt\"", i), &[&format!("tos{}", i)], move |s| {
                     s.variants[i].to_string = Some("Tt".into());
                     true
